@@ -64,7 +64,7 @@ def _tlc_cmd(module, cfg, md, workers, heap):
             os.path.join(common.SPEC, module + ".tla")]
 
 
-def model_check(kit, tier, *, emit=True, workers=common.NCPU, timeout=7200, max_states=400000, ukey=None):
+def model_check(kit, tier, *, emit=True, workers=common.NCPU, timeout=7200, max_states=400000, ukey=None, heap=("5g", "3g")):
     """Run the exhaustive model (specification level check) and, concurrently, the emission
     run of the same graph.  Returns dict(states, transitions, depth, alphabet, states_file...)."""
     import subprocess
@@ -79,7 +79,7 @@ def model_check(kit, tier, *, emit=True, workers=common.NCPU, timeout=7200, max_
 
     def run_check():
         with open(out_c, "w") as fh:
-            subprocess.run(_tlc_cmd(kit.mc_module, cfg_c, os.path.join(d, "mc"), workers, "12g"), stdout=fh,
+            subprocess.run(_tlc_cmd(kit.mc_module, cfg_c, os.path.join(d, "mc"), workers, heap[0]), stdout=fh,
                            stderr=subprocess.STDOUT, cwd=common.SPEC, timeout=timeout)
 
     th = threading.Thread(target=run_check)
@@ -89,7 +89,7 @@ def model_check(kit, tier, *, emit=True, workers=common.NCPU, timeout=7200, max_
     if emit:
         cfg_e = os.path.join(d, "emit.cfg")
         open(cfg_e, "w").write(cfg_text(kit.universes[ukey or tier], (), (), True))
-        p = subprocess.Popen(_tlc_cmd(kit.mc_module, cfg_e, os.path.join(d, "me"), max(2, workers // 2), "8g"),
+        p = subprocess.Popen(_tlc_cmd(kit.mc_module, cfg_e, os.path.join(d, "me"), max(2, workers // 2), heap[1]),
                              stdout=subprocess.PIPE, stderr=subprocess.STDOUT, cwd=common.SPEC, text=True,
                              bufsize=1 << 20)
         seen = set()
